@@ -33,3 +33,6 @@ func (pm *Manager) ZZGuard(name string) {
 	zzverif.Guard(pm.usedPorts, &pm.mu, name+".usedPorts")
 	zzverif.Guard(pm.freePorts, &pm.mu, name+".freePorts")
 }
+
+// ZZProbe returns the network and address on which availability of a port is probed.
+func (pm *Manager) ZZProbe() (netType, bindAddr string) { return pm.netType, pm.bindAddr }
